@@ -1670,6 +1670,10 @@ private:
   void updateCache(const std::string &key, const std::vector<std::uint8_t> &value,
                    std::chrono::system_clock::time_point expiry) const
   {
+    if (_config.maxCacheSize == 0)
+    {
+      return; // cache disabled (and nothing to evict: _cache.begin() == end())
+    }
     std::unique_lock<std::shared_mutex> lock(_cacheMutex);
     if (_cache.size() >= _config.maxCacheSize)
     {
